@@ -36,7 +36,7 @@ type doc struct {
 	AuthsMode   int               // 0 object, 1 key absent, 2 null (1 and 2 only when there are no keys)
 	CredsStore  string
 	EmptyStore  bool        // write "credsStore": "" explicitly
-	CredHelpers [][2]string // host -> helper name (unique hosts, helper names non-empty)
+	CredHelpers [][2]string // host -> helper name (unique hosts; occasionally the empty name)
 	Noise       bool
 	TextSeed    uint64 // order of keys and fields in the written text
 	Invalid     bool   // some entry has an invalid auth field: only determinism is asserted
@@ -304,7 +304,11 @@ func genDoc(rng *rand.Rand, helperHeavy bool) *doc {
 			continue
 		}
 		seen[h] = true
-		d.CredHelpers = append(d.CredHelpers, [2]string{h, pickHelper()})
+		name := pickHelper()
+		if rng.IntN(12) == 0 {
+			name = "" // an entry that names no helper
+		}
+		d.CredHelpers = append(d.CredHelpers, [2]string{h, name})
 	}
 	return d
 }
